@@ -293,6 +293,25 @@ pub fn eval(toks: &[&str]) -> Option<String> {
             }
             Some(list_str(&outs))
         }
+        "pois_na" => {
+            let rn = t.u64()?;
+            let rd = t.u64()?;
+            let en = t.u64()?;
+            let ed = t.u64()?;
+            let delta = t.u64()?;
+            let p = arrival::ApproximatedPoisson::new(rn as f64 / rd as f64, en as f64 / ed as f64);
+            Some(p.number_arrivals(Duration::from(delta)).to_string())
+        }
+        "pois_p" => {
+            let rn = t.u64()?;
+            let rd = t.u64()?;
+            let delta = t.u64()?;
+            let n = t.usize()?;
+            let p = arrival::Poisson {
+                rate: rn as f64 / rd as f64,
+            };
+            Some(p.arrival_probability(Duration::from(delta), n).to_bits().to_string())
+        }
         "maxrt" => {
             let n = t.usize()?;
             let mut v = vec![];
